@@ -5,7 +5,7 @@ import contextlib
 import io
 import warnings
 
-from .core import SimCrash
+from .core import SimCrash, state_digest
 from .seams.preempt import Preempt
 from .world import fit_code, make_witness
 
@@ -89,6 +89,15 @@ def run_fit(
     for addr, fn in async_actions:
         pre.at(addr, fn)
 
+    if tcfg.get("arg_types") == "numpy":
+        import numpy as _np
+
+        tcfg = dict(tcfg)
+        tcfg["epochs"] = _np.int64(tcfg["epochs"])
+        tcfg["pos_bs"] = _np.int64(tcfg["pos_bs"])
+        tcfg["k"] = _np.int32(tcfg["k"])
+        if tcfg.get("neg_bs") is not None:
+            tcfg["neg_bs"] = _np.int32(tcfg["neg_bs"])
     kwargs = dict(
         epochs=tcfg["epochs"],
         pos_batch_size=tcfg["pos_bs"],
@@ -113,6 +122,7 @@ def run_fit(
     info = {"raised": None, "crashed": False, "preset": preset, "callbacks": callbacks, "witnesses": wits}
     out = io.StringIO()
     run.log.add("op", "fit", tcfg.get("starting_epoch", 1), tcfg["epochs"])
+    info["digest_before"] = state_digest(state)
     try:
         with contextlib.redirect_stdout(out), warnings.catch_warnings():
             warnings.simplefilter("ignore")
@@ -134,6 +144,7 @@ def run_fit(
     except Exception as exc:  # noqa: BLE001
         info["raised"] = exc
     info["flag_after"] = bool(state.stop_training)
+    info["digest_after"] = state_digest(state)
     info["stdout"] = out.getvalue()
     info["preempt"] = pre
     info["lines"] = pre.ordinal
